@@ -99,7 +99,8 @@ class Theory:
 
 
 class FnSpec:
-    def __init__(self, relfile, qualname, fn, label=None, trusted=False, external=False, cls=None, name=None, why_trusted=None, hints=None):
+    def __init__(self, relfile, qualname, fn, label=None, trusted=False, external=False, cls=None, name=None, why_trusted=None, hints=None, modifies=None):
+        self.static_modifies = modifies  # heap fields the function may modify, declared statically (None: unknown)
         self.relfile, self.qualname, self.fn, self.label = relfile, qualname, fn, label
         self.hints = hints  # names of the lemmas whose closed forms this function's VCs may use (None: all)
         self.slice = None  # (start anchor, end anchor): verify only that statement range
@@ -190,11 +191,11 @@ class Property:
 
         return deco
 
-    def external(self, name, why, cls=None):
+    def external(self, name, why, cls=None, modifies=None):
         """Assumed contract of a function outside the verified code (numpy, joblib ...)."""
 
         def deco(f):
-            self.specs.append(FnSpec("<external>", name, f, trusted=True, external=True, cls=cls, why_trusted=why, name=name))
+            self.specs.append(FnSpec("<external>", name, f, trusted=True, external=True, cls=cls, why_trusted=why, name=name, modifies=modifies))
             return f
 
         return deco
